@@ -410,12 +410,33 @@ func rangesMap(f *ssa.Function) bool {
 // sortsResult: every returned slice value has been passed to sort.Strings / sort.Slice / sort.Sort before the return.
 func sortsResult(f *ssa.Function) bool {
 	sorted := map[ssa.Value]bool{}
+	sortedCell := map[*ssa.Alloc]bool{}
 	for _, b := range f.Blocks {
 		for _, in := range b.Instrs {
 			if c, ok := in.(*ssa.Call); ok && c.Call.StaticCallee() != nil {
 				switch c.Call.StaticCallee().String() {
-				case "sort.Strings", "sort.Slice", "sort.SliceStable", "sort.Sort", "sort.Stable":
+				case "sort.Strings", "sort.Slice", "sort.SliceStable", "sort.Sort", "sort.Stable", "sort.Ints", "slices.Sort", "slices.SortFunc", "slices.SortStableFunc":
+					a := c.Call.Args[0]
+					for {
+						// sort.Slice takes an interface{}, sort.Sort a sort.Interface conversion of the slice
+						if mi, ok := a.(*ssa.MakeInterface); ok {
+							a = mi.X
+							continue
+						}
+						if ct, ok := a.(*ssa.ChangeType); ok {
+							a = ct.X
+							continue
+						}
+						break
+					}
+					sorted[a] = true
 					sorted[c.Call.Args[0]] = true
+					// a slice captured by the comparator closure lives in a cell: every load of that cell is the slice
+					if u, ok := a.(*ssa.UnOp); ok {
+						if al, ok := u.X.(*ssa.Alloc); ok {
+							sortedCell[al] = true
+						}
+					}
 				}
 			}
 		}
@@ -426,6 +447,12 @@ func sortsResult(f *ssa.Function) bool {
 			if rt, ok := in.(*ssa.Return); ok {
 				if len(rt.Results) != 1 {
 					return false
+				}
+				if u, ok := rt.Results[0].(*ssa.UnOp); ok {
+					if al, ok := u.X.(*ssa.Alloc); ok && sortedCell[al] {
+						okAny = true
+						continue
+					}
 				}
 				if !sorted[rt.Results[0]] {
 					// ... or handed to a helper of the module that sorts what it returns
